@@ -12,6 +12,7 @@ import (
 	"regexp"
 	"sort"
 	"strings"
+	"time"
 
 	"github.com/dave/dst"
 	"github.com/dave/dst/decorator"
@@ -288,6 +289,22 @@ func c18Package(c *Ctx, key string, srcs map[string][]byte, out *ndjson) {
 
 func checkC18(c *Ctx) {
 	c.Assume("go/parser's object resolution (deprecated but still performed) is the reference graph; tree ids coincide on both sides because both trees are exported by the same reflective traversal")
+	// (M) the memoised conversion on all small cyclic graphs; registering the memo entry late is rejected
+	for _, v := range []string{"code", "memo-late"} {
+		n := 4
+		if v != "code" || c.Quick() {
+			n = 3
+		}
+		r, err := RunTLC(TLCRun{Module: "Objects", Workers: 8, Timeout: 20 * time.Minute, Cfg: fmt.Sprintf("CONSTANTS N = %d M = 2 Variant = \"%s\"\nINIT Init\nNEXT Next\nINVARIANTS Bounded ConvertedOnce Complete\nCHECK_DEADLOCK FALSE\n", n, v)})
+		if err != nil || (v == "code" && !r.OK()) || (v != "code" && r.Violated == "") {
+			c.Infra("TLC (Objects) unexpected result for variant " + v + ": " + errText(r, err))
+			return
+		}
+		if v == "code" {
+			c.TLC(r)
+		}
+	}
+	c.Set("model", "Objects.tla: all trees of N nodes x identifier->object and object->declaration maps (cycles included): Bounded, ConvertedOnce, Complete; the memo-late variant is rejected")
 	files := corpus(c, map[bool]int{true: 50, false: 600}[c.Quick()])
 	traces := make([]*ndjson, len(files))
 	parallel(len(files), func(i int) {
